@@ -42,7 +42,7 @@ CLAIMED = {
    "exhaustive single-edit neighbourhood + rapid PBT against an independent reference model of the sum-file format; rapid operation histories over API writers and the real CLI",
    "Directories are generated (names incl. surprising sort orders and bystanders, contents incl. sum-ignore/checkpoint directives and near misses); atlas.sum written by WriteSumFile is compared byte-for-byte with an independent implementation of the format; "
    "after directory edits (add/remove/rename/swap/flip/insert/delete, 1-3 stacked) and atlas.sum edits (hash/name character, delete/duplicate/swap lines, truncate, remove) migrate.Validate must fail with a checksum error iff the model's protected sequence changed — both directions, on MemDir and LocalDir; "
-   "the complete single-edit neighbourhood of fixed small directories is enumerated. Histories of Planner.WritePlan / WriteCheckpoint / MemDir.CopyFiles / `migrate new|hash|diff|import` and tamperings are replayed with the invariant that API Validate, `migrate validate` and `migrate apply` agree with the model after every step.",
+   "the complete single-edit neighbourhood of fixed small directories is enumerated. Histories of Planner.WritePlan / WriteCheckpoint / MemDir.CopyFiles / `migrate new|hash|diff|import` and tamperings are replayed with the invariant that API Validate, `migrate validate` and `migrate apply` agree with the model after every step; library-only histories (1500 per quick run) add LocalDir.WriteFile over existing files and tamperings that shrink the directory followed by a re-hash, the effect of a tampering being decided by the harness' own sum implementation.",
    "SHA-256 collisions are ignored. Content of `atlas:sum ignore` files and trailing ignored files are outside the protected sequence by the format's own definition (model says must still validate). Whitespace-only edits of atlas.sum are not generated (unspecified).",
    "4/C06"),
  "C01": ("exploration",
@@ -62,14 +62,14 @@ CLAIMED = {
    "4/C03"),
  "C05": ("exploration",
    "rapid PBT with generated rows on a real SQLite engine; before/after row comparison keyed by an untouched key column (invariant over the plan's effect on data)",
-   "Populated databases (0-6 rows per table, type-appropriate values, NULLs, distinct values under keys) are migrated to 1-4 random elementary edits of their schema through the CLI's diff/apply path inside a transaction. "
+   "Populated databases (0-6 rows per table, type-appropriate values, NULLs, distinct values under keys) are migrated to 1-4 random elementary edits of their schema through the CLI's diff/apply path, inside a transaction (2/3) or through Driver.ApplyChanges without one with foreign keys enforced (1/3); child rows reference existing parent rows (incl. a dedicated parent-link column with ON DELETE CASCADE / SET NULL / SET DEFAULT). "
    "An independent connection compares before and after: same key set per surviving table; every column present before and after with the same declared type keeps quote(value) in every row, except the documented NULL -> new DEFAULT under a column that became NOT NULL; "
    "tables outside the change set keep their stored CREATE text and rows including rowid. Both the in-place ALTER path and the new_<table> rebuild path are measured classes.",
-   "Data-caused engine failures (unique/not-null/check/FK violations, STRICT type mismatches) are counted as rejected (13% in quick) and not judged; foreign-key child columns are populated with NULL. Values of columns whose declared type changed are outside the property.",
+   "Data-caused engine failures (unique/not-null/check/FK violations, STRICT type mismatches) are counted as rejected (about 13% in quick) and not judged. NULL under a column that becomes the rowid alias is replaced by the engine, and a DEFAULT that a STRICT table can never store is refused by the engine: neither is a loss. Values of columns whose declared type changed are outside the property.",
    "4/C05"),
  "C04": ("exploration",
    "exhaustive enumeration of FK graphs x table-role assignments + rapid PBT on larger graphs; oracle = reference catalogue replaying the planned SQL text under the database's FK rules",
-   "Every directed FK graph with self loops over n<=3 (quick) / n<=4 (thorough) tables x every assignment of tables to kept/created/dropped x MySQL and PostgreSQL planners x plan modes is diffed (DefaultDiff.SchemaDiff) and planned (DefaultPlan.PlanChanges); "
+   "Every directed FK graph with self loops over n<=3 (quick) / n<=4 (thorough) tables x every assignment of tables to kept/created/dropped x MySQL and PostgreSQL planners x plan modes x FK naming (per edge: a re-pointed key is drop+add; per table slot: it keeps its name and the differ reports ModifyForeignKey) is diffed (DefaultDiff.SchemaDiff) and planned (DefaultPlan.PlanChanges); "
    "random graphs over 5-8 tables with independent current/desired edge sets and two-column FKs on top. A reference catalogue parses each planned statement (CREATE TABLE .. REFERENCES, ADD CONSTRAINT, DROP FOREIGN KEY/CONSTRAINT, DROP TABLE) and enforces: "
    "the referenced table exists when an FK is declared (self references allowed), a table is dropped only when no other table references it, nothing is created or dropped twice, and the final catalogue (tables + FK edges) equals the desired one; PlanChanges must return without error within a watchdog.",
    "No MySQL/PostgreSQL engine is available offline: the reference catalogue stands in for the server's FK rules. Index statements are ignored (an FK's dependency on a unique index of the referenced table is outside this property).",
@@ -78,7 +78,7 @@ CLAIMED = {
    "rapid PBT: up-then-down execution on a real SQLite engine (inverse/round-trip oracle with independent catalog comparison) + formatter down-section consistency against Plan.Changes[].ReverseStmts()",
    "SQLite (current, desired) pairs biased to reversible plans are planned; when Plan.Reversible the statements are executed and then the reverse statements of the changes in reverse order; the harness' PRAGMA catalog before must equal after and Atlas' diff original<->result must be empty both ways. "
    "For every plan: Reversible implies every change with a schema Source has a reverse statement. Down-file part: the same plans (indent '', two spaces, tab) are written with golang-migrate, goose, flyway, dbmate and liquibase formatters and the down section / rollback lines, "
-   "scanned with the statement scanner, must be exactly the reverse statements in (reverse) change order; the same for MySQL and PostgreSQL plans built from the multi-dialect model. A separate sub-check runs up-then-down on schemas with inline UNIQUE constraints (automatic indexes).",
+   "scanned with the statement scanner, must be exactly the reverse statements in (reverse) change order; the same for MySQL and PostgreSQL plans built from the multi-dialect model, MySQL also through drivers opened (sqlmock answers the version query) as MySQL 8 / 5.7 / MariaDB / TiDB, with CHECK-without-name additions (irreversible) next to catalogue edits. A separate sub-check runs up-then-down on schemas with inline UNIQUE constraints (automatic indexes).",
    "Engine execution is SQLite only; MySQL/PostgreSQL reverse statements are compared with the down files but never executed (no server offline). PRAGMA foreign_keys bookkeeping statements carry no reverse by design and are skipped on the way down.",
    "4/C17"),
  "C02": ("exploration",
@@ -86,8 +86,8 @@ CLAIMED = {
    "For MySQL, PostgreSQL and SQLite differs (DefaultDiff, DiffNormalized as the CLI uses) a base schema model is built twice into independent linked schema graphs; the second build carries a set of catalogue edits "
    "(add/drop table, column, index, PK, FK, check, enum; modify column null/type/default/comment/generated; modify index unique/parts(desc, column, added part, prefix)/attr(type, predicate, include)/comment; modify PK parts; "
    "modify FK column/ref column/ref table/on update/on delete; modify named check; table comment/engine/auto_increment/WITHOUT ROWID/STRICT). Each edit carries its expected descriptor; the flattened result of SchemaDiff / RealmDiff / TableDiff must equal "
-   "the expected multiset exactly. Every catalogue edit at every applicable site is enumerated (3 levels x declared/permuted order); every pair of edits of different aspects of the SAME object (expected: one Modify* carrying the union of the change bits) is enumerated too; random sets of 0-8 non-interfering edits with random base reductions and declaration-order permutations on top.",
-   "Expectations follow the differs' documented normal forms (NO ACTION == RESTRICT == '' in MySQL, SQLite type classes, MayWrap); the catalogue never uses an edit whose before/after are equivalent under them. Charset/collation edits are not generated (DefaultDiff needs a live server to resolve defaults). "
+   "the expected multiset exactly. Every catalogue edit at every applicable site is enumerated (3 levels x declared/permuted order); every pair of edits of different aspects of the SAME object (expected: one Modify* carrying the union of the change bits) is enumerated too; random sets of 0-8 non-interfering edits with random base reductions, declaration-order permutations, generated-name twins and charset shorthands on top.",
+   "Expectations follow the differs' documented normal forms (NO ACTION == RESTRICT == '' in MySQL, SQLite type classes, MayWrap); the catalogue never uses an edit whose before/after are equivalent under them. MySQL character sets: the base carries CHARSET and COLLATE on the schema, every table and some columns the way an inspected database does; table/column charset and collation edits are in the catalogue, and the short ways of writing a column's character set on the desired side (COLLATE only, CHARSET only with the default collation) must give no change (resolved from the tables embedded in the driver, no server). Generated-name twins and unnamed-index additions cover similar-unnamed-index matching. "
    "PostgreSQL generated-expression changes are refused by the differ by design and are not in its catalogue.",
    "4/C02"),
  "C16": ("exploration",
@@ -101,19 +101,19 @@ CLAIMED = {
  "C15": ("exploration",
    "exhaustive type-grid enumeration (format/parse fixpoint + HCL conversion round trip) + rapid PBT over schemas (round-trip oracle: empty diffs both ways, byte-identical re-marshal)",
    "(a) every TypeSpec of the MySQL, PostgreSQL and SQLite type registries x a parameter grid (absent / zero / typical values per attribute, unsigned, enum/set value lists) is instantiated through the registry, formatted, parsed and formatted again (fixpoint) and sent through TypeRegistry.Convert/Type, the path MarshalHCL/EvalHCL use; the SQL form must come back unchanged. "
-   "(b) per-dialect feature-rich schemas plus an `alltypes` table over the formatted grid types (random null/default/comment) are marshalled with MarshalHCL, evaluated with EvalHCLBytes, diffed in both directions (DiffNormalized: must be empty) and marshalled again (bytes must be identical).",
-   "Schema graphs are built with the exported builder API from ParseType'd types (the form an inspector yields), not inspected from servers. MySQL table-level AUTO_INCREMENT start values are excluded (not exported by design); charset/collation are not generated (need a live server for defaults).",
+   "(b) per-dialect feature-rich schemas plus an `alltypes` table over the formatted grid types (random null/default/comment) and a generated `features` table (composite/DESC/prefix key parts, index parts with DESC/prefix/expressions, index types, predicates, INCLUDE, comments, checks, FK actions, MySQL column and table character sets) are marshalled with MarshalHCL, evaluated with EvalHCLBytes, diffed in both directions (DiffNormalized: must be empty), compared directly on the effective character set / collation of every table and string column (the differ cannot see a value lost together with all its ancestors'), and marshalled again (bytes must be identical).",
+   "Schema graphs are built with the exported builder API from ParseType'd types (the form an inspector yields), not inspected from servers. MySQL table-level AUTO_INCREMENT start values are excluded (not exported by design). A character set stated on an element although it equals the inherited one is removed before the comparison (Atlas writes it only when it differs from the parent's, by design). PostgreSQL/SQLite primary keys carry no per-part options (not representable in their HCL).",
    "4/C15"),
  "C10": ("fault_enumeration",
    "exhaustive crash-point enumeration on the real CLI binary (process killed at every instrumented point), invariants over journal rows and revision rows read by an independent SQLite client, then re-run",
-   "The atlas binary is built with -tags verif; for every configuration (directory shape x tx-mode file/all/none x per-file txmode directives) a probe run records the sequence of instrumented points reached (before/after every statement, before/after every revision write, before/after commit) "
+   "The atlas binary is built with -tags verif; for every configuration (directory shape x tx-mode file/all/none x per-file txmode directives x an optional checkpoint file, before which nothing may ever run) a probe run records the sequence of instrumented points reached (before/after every statement, before/after every revision write, before/after commit) "
    "and the process is then exited (status 137, no deferred code, no rollback) at each point index in turn on a fresh SQLite file; the same command is run again. Checked right after the crash: no revision row claims a statement whose journal row is absent; in file/all modes no file is half applied; "
    "in all mode nothing is visible unless the crash came after the commit. Checked after the re-run: exit 0, every statement's row exists exactly once (none mode: only the statement in flight at the crash may exist twice), all revisions complete.",
    "Crash points are the instrumented ones; a crash inside SQLite's own commit is SQLite's guarantee. The init statement is CREATE TABLE IF NOT EXISTS so that re-executing the in-flight statement in none mode is possible at all. The stale advisory lock file a killed process leaves in TMPDIR is removed before the re-run (lock handling is not part of the property).",
    "4/C10"),
  "C13": ("exploration",
    "enumeration of (directory shape x failing-statement position x tx-mode x directives x count x dry-run) + rapid PBT, on the real CLI; oracle = documented post-state per transaction mode compared with an independent dump of the SQLite file; metamorphic fix-and-rerun == failure-free run",
-   "`atlas migrate apply` runs on SQLite files for every listed configuration with a failing statement at every position (or none). The database is read by an independent connection (journal rows in insertion order, revision rows version/applied/total/error, schema objects). "
+   "`atlas migrate apply` runs on SQLite files for every listed configuration with a failing statement at every position (or none), failing at once (missing table) or on a foreign-key violation with _fk=1 (immediate without a transaction, found at commit inside one). The database is read by an independent connection (journal rows in insertion order, revision rows version/applied/total/error, schema objects). "
    "Checked: file mode = state after the last completely applied file, all mode = state before the command, none mode = exactly the successful prefix recorded with its error; per-file atlas:txmode directives follow the file's own mode; exit status matches; "
    "a --dry-run on the fresh database and on the database after the run changes nothing; after fixing the file and re-hashing, the re-run ends in the state of a failure-free run. `atlas schema apply` (default mode) on populated tables with plans engineered to succeed first and fail later on the data "
    "must leave the full data dump (schema text, rows, rowids) unchanged, with --auto-approve and with --dry-run.",
@@ -129,13 +129,13 @@ CLAIMED = {
  "C18": ("exploration",
    "rapid PBT over migration histories authored by the real `migrate diff` and by hand, linted by the real CLI on a real SQLite dev database; oracle = reference model tagging each file destructive/additive (iff, with code, object and position)",
    "Histories of 2-5 files (1-3 evolution steps each, over a small table model) are materialised as migration directories: each file either through `atlas migrate diff` (Atlas' own SQL including its new_<table> rebuild procedure) or as hand-written equivalent SQL "
-   "(DROP TABLE, ALTER TABLE DROP COLUMN, manual rebuilds that omit or keep columns, scratch tables/columns created and dropped in the same file, a pre-existing column or table dropped and re-added / re-created under the same name in the same file, VIRTUAL generated columns). `atlas migrate lint --latest N --format json` is run for every window N. "
+   "(DROP TABLE, ALTER TABLE DROP COLUMN, manual rebuilds that omit or keep columns, scratch tables/columns created and dropped in the same file, a pre-existing column or table dropped and re-added / re-created under the same name in the same file, VIRTUAL generated columns). `atlas migrate lint --latest N --format json` is run for every window N up to the whole directory (empty base); hand-written files are padded with 2-14 `SELECT 1` statements a third of the time (files longer than ten statements take another loader path). "
    "For each file in the window the multiset of DS1xx diagnostics (code, object) must equal the model's: a table or non-virtual column that existed before the file and is gone after it, and nothing else; each Pos must fall inside a statement of the drop/rebuild of that table; exit status is non-zero iff the window holds a destructive file.",
    "One step per table per file keeps 'existed before the file' unambiguous. Only the destructive analyzer's codes (DS1xx) are judged; other analyzers' diagnostics are ignored. SQLite only.",
    "4/C18"),
  "C19": ("exploration",
    "metamorphic relation for skipped change kinds (enumerated + rapid), differential against a declarative reference of the exclude-pattern semantics (rapid pattern grammar), and end-to-end rapid cases on a real SQLite engine and the real CLI",
-   "(a) For the MySQL, PostgreSQL and SQLite differs, SchemaDiff with DiffSkipChanges(K) over the C02 base and catalogue edit sets must equal the unrestricted diff minus every K-typed change at every nesting level, for every single kind against every single edit and for random kind subsets x edit sets. "
+   "(a) For the MySQL, PostgreSQL and SQLite differs, SchemaDiff with DiffSkipChanges(K) over the C02 base and catalogue edit sets must equal the unrestricted diff minus every K-typed change at every nesting level, for every single kind against every single edit and for random kind subsets x edit sets, also with a materialized view whose index list differs on both sides (index changes nested in ModifyView; AddView/DropView/ModifyView kinds). "
    "(b) ExcludeRealm on realms of 1-2 schemas is compared in both directions (absent and remaining) with an independent reference of the documented pattern semantics over a pattern grammar (1-3 parts, wildcards, classes, quoted names with dots, [type=...] selectors). "
    "(c) sqlite InspectRealm/InspectSchema with Exclude on real databases against the same reference; `atlas schema apply --exclude <tables>` must leave excluded tables byte-identical while the rest converges; `--env` with diff.skip must never perform a skipped kind of change (observed in the independent catalog).",
    "The cascade from an excluded column to its indexes/FKs is judged only when no selector restricts the kinds (unspecified otherwise). Foreign keys of kept tables that point at excluded tables are not compared. Skippable kinds are the table-level ones of cmdapi.SkipChanges that the generated schemas can produce.",
@@ -150,7 +150,7 @@ CLAIMED = {
  "C20": ("exploration",
    "rapid PBT with repetition, multi-process and concurrent execution under the Go race detector (byte-identity oracle) and a permutation metamorphic relation (statement multiset + equal resulting catalogs on a real SQLite engine)",
    "For MySQL/PostgreSQL/SQLite schemas with two independent FK chains, a join table with three parents that sorts before them, enums and all index/check kinds, the plans (create/modify/drop: Cmd and reverse statements), DefaultFormatter files, the MemDir sum file and MarshalHCL bytes are computed 21 times in one process, in 3 fresh child processes, "
-   "and concurrently (the case 4x plus 4 unrelated cases in goroutines) in a test binary built with -race; all results must be byte-identical and the race detector silent. The real CLI's `schema inspect` (HCL and SQL), `schema diff` and `migrate hash` are run 5 times each in fresh processes. "
+   "and concurrently (the case 4x plus 4 unrelated cases in goroutines) in a test binary built with -race; all results must be byte-identical and the race detector silent. MySQL cases write column character sets the short way on the desired side, which is resolved through lazily loaded driver tables: the bytes computed in-process after other cases must equal those of processes without history. The real CLI's `schema inspect` (HCL and SQL), `schema diff` and `migrate hash` are run 5 times each in fresh processes. "
    "Permutation: tables/enum types in another order (all dialects) and the inspected HCL's top-level blocks shuffled and spread over 1-3 files (SQLite; both variants planned and applied on a real engine) must give the same multiset of statements and equal catalogs.",
    "The check owns no scheduler: races that need an interleaving the Go scheduler does not produce in these runs are not excluded. Only top-level declaration order is permuted (column order inside a table is semantic).",
    "4/C20"),
